@@ -201,9 +201,9 @@ pub mod boundary {
             };
 
             #[cfg(feature = "verif-hooks")]
-            crate::verif::slice_use(this.as_ptr() as usize, std::mem::size_of::<T::Transformed>(), "List::eq#this");
+            crate::verif::slice_use(this.as_ptr() as usize, std::mem::size_of::<T::Transformed>(), "slice:List::eq#this");
             #[cfg(feature = "verif-hooks")]
-            crate::verif::slice_use(other.as_ptr() as usize, std::mem::size_of::<T::Transformed>(), "List::eq#other");
+            crate::verif::slice_use(other.as_ptr() as usize, std::mem::size_of::<T::Transformed>(), "slice:List::eq#other");
             this == other
         }
     }
@@ -349,7 +349,7 @@ pub mod boundary {
             };
 
             #[cfg(feature = "verif-hooks")]
-            crate::verif::slice_use(slice.as_ptr() as usize, std::mem::size_of::<T::Transformed>(), "List::to_vec");
+            crate::verif::slice_use(slice.as_ptr() as usize, std::mem::size_of::<T::Transformed>(), "slice:List::to_vec");
             slice
                 .iter()
                 .map(|elem| T::untransform(elem.clone()))
